@@ -65,13 +65,15 @@ type c05State struct {
 	countOK  bool
 	compared bool   // the token of the current reply was compared in this iteration
 	badCount string // a reply was counted although its read may have failed or its token was not compared
+	cmpLive  bool   // a token comparison was executed since the metadata was fetched
+	untested string // a comparison was executed again although the previous outcome was never tested
 }
 
 func (s *c05State) Key() string {
-	return fmt.Sprintf("%v/%v/%v/%s/%s", s.mismatch, s.countOK, s.compared, s.badCount, s.f.Key())
+	return fmt.Sprintf("%v/%v/%v/%s/%v/%s/%s", s.mismatch, s.countOK, s.compared, s.badCount, s.cmpLive, s.untested, s.f.Key())
 }
 func (s *c05State) Copy() ssax.PState {
-	return &c05State{s.f.Clone(), s.mismatch, s.countOK, s.compared, s.badCount}
+	return &c05State{s.f.Clone(), s.mismatch, s.countOK, s.compared, s.badCount, s.cmpLive, s.untested}
 }
 
 // replyLoopFuncs returns the functions of package chunked that call the reply helper.
@@ -239,7 +241,7 @@ func checkReplyLoop(c *core.Ctx, fn, helper *ssa.Function) {
 		}
 		return walk(v)
 	}
-	var hitsMismatch, hitsNoCount, hitsBadCount []string
+	var hitsMismatch, hitsNoCount, hitsBadCount, hitsUntested []string
 	nHits := 0
 	var helperErr ssa.Value
 	if hcall.Referrers() != nil {
@@ -258,13 +260,17 @@ func checkReplyLoop(c *core.Ctx, fn, helper *ssa.Function) {
 	ex.Instr = func(ins ssa.Instruction, ps ssax.PState) bool {
 		s := ps.(*c05State)
 		if isMetaFetch(ins) {
-			s.mismatch, s.countOK, s.badCount = false, false, ""
+			s.mismatch, s.countOK, s.badCount, s.untested, s.cmpLive = false, false, "", "", false
 		}
 		if ins == ssa.Instruction(hcall) {
 			s.compared = false
 		}
 		if tokCmp != nil && ins == ssa.Instruction(tokCmp) {
+			if s.compared && s.cmpLive && s.f.Eval(tokCmp).Bool == ssax.Unknown && s.untested == "" {
+				s.untested = "the token comparison at " + c.P.Pos(tokCmp.Pos()) + " is executed again on a path that never tested the previous outcome"
+			}
 			s.compared = true
+			s.cmpLive = true
 		}
 		if isCount(ins) && s.badCount == "" {
 			switch {
@@ -278,6 +284,10 @@ func checkReplyLoop(c *core.Ctx, fn, helper *ssa.Function) {
 			nHits++
 			if s.mismatch {
 				hitsMismatch = append(hitsMismatch, what+" at "+c.P.Pos(ins.Pos())+" on a path where a chunk's token differed from the metadata token")
+			} else if s.untested != "" {
+				hitsUntested = append(hitsUntested, what+" at "+c.P.Pos(ins.Pos())+" although "+s.untested)
+			} else if s.cmpLive && tokCmp != nil && s.f.Eval(tokCmp).Bool == ssax.Unknown {
+				hitsUntested = append(hitsUntested, what+" at "+c.P.Pos(ins.Pos())+" on a path that never tested the outcome of the last token comparison")
 			}
 			if !s.countOK {
 				hitsNoCount = append(hitsNoCount, what+" at "+c.P.Pos(ins.Pos())+" on a path that never established replies == NumChunks")
@@ -295,6 +305,10 @@ func checkReplyLoop(c *core.Ctx, fn, helper *ssa.Function) {
 			nHits++
 			if s.mismatch {
 				hitsMismatch = append(hitsMismatch, what+" at "+c.P.Pos(ins.Pos())+" on a path where a chunk's token differed from the metadata token")
+			} else if s.untested != "" {
+				hitsUntested = append(hitsUntested, what+" at "+c.P.Pos(ins.Pos())+" although "+s.untested)
+			} else if s.cmpLive && tokCmp != nil && s.f.Eval(tokCmp).Bool == ssax.Unknown {
+				hitsUntested = append(hitsUntested, what+" at "+c.P.Pos(ins.Pos())+" on a path that never tested the outcome of the last token comparison")
 			}
 			if !s.countOK {
 				hitsNoCount = append(hitsNoCount, what+" at "+c.P.Pos(ins.Pos())+" on a path that never established replies == NumChunks")
@@ -317,7 +331,9 @@ func checkReplyLoop(c *core.Ctx, fn, helper *ssa.Function) {
 			}
 			break
 		}
-		if tokCmp != nil && cond == ssa.Value(tokCmp) && !t {
+		_, _ = cond, t
+		if tokCmp != nil && s.cmpLive && s.f.Eval(tokCmp).Bool == ssax.No {
+			// the outcome "differs" is established on this path, directly or through flags computed from it
 			s.mismatch = true
 		}
 		if bo, ok := cond.(*ssa.BinOp); ok && counter != nil && (bo.Op == token.EQL || bo.Op == token.NEQ) {
@@ -349,6 +365,8 @@ func checkReplyLoop(c *core.Ctx, fn, helper *ssa.Function) {
 		c.Violate("R5.2", key+"#token-guard", pos, "the token read from the chunk is never compared (bytes.Equal) with the metadata's token: chunks of a different write are accepted")
 	case len(hitsMismatch) > 0:
 		c.Violate("R5.2", key+"#token-guard", pos, uniq(hitsMismatch)[0], uniq(hitsMismatch)...)
+	case len(hitsUntested) > 0:
+		c.Undecided("R5.2", key+"#token-guard", pos, uniq(hitsUntested)[0]+": the outcome of a token comparison must decide, by a branch on it or on a flag computed from it, whether a hit is still possible")
 	default:
 		c.OK("R5.2", key+"#token-guard", pos, fmt.Sprintf("token compared at %s; no hit reachable after a mismatch (%d abstract states)", c.P.Pos(tokCmp.Pos()), ex.Visited))
 	}
